@@ -17,7 +17,7 @@ enum VV {
 
 #[derive(Clone, Debug)]
 enum Op {
-    MkIndex(usize, char), // dimension, 'c' | 'l'
+    MkIndex(usize, char), // dimension, 'c' cosine | 'l' l2 (Cypher DDL) | 'i' inner product (store API)
     Create(bool, Option<Vec<i32>>),
     SetVec(usize, VV),
     RemoveVec(usize),
@@ -163,6 +163,16 @@ fn run_real(ops: &[Op]) -> (Vec<QObs>, Option<String>) {
     let mut next = 0usize;
     let mut out = vec![];
     for op in ops {
+        if let Op::MkIndex(d, 'i') = op {
+            // Cypher DDL offers cosine and l2 only: the third metric is declared the way the
+            // HTTP layer does it, through the store API, followed by the same backfill
+            // CREATE VECTOR INDEX runs
+            if let Err(e) = store.create_vector_index("L", "v", *d, samyama::vector::DistanceMetric::InnerProduct) {
+                return (out, Some(format!("create_vector_index failed: {}", e)));
+            }
+            store.rebuild_vector_index();
+            continue;
+        }
         let stmt = match op {
             Op::MkIndex(d, m) => Some(format!(
                 "CREATE VECTOR INDEX FOR (n:L) ON (n.v) OPTIONS {{dimensions: {}, similarity: '{}'}}",
@@ -269,6 +279,9 @@ fn ids_txt(rows: &[(Option<usize>, f64)]) -> String {
 
 /// exact distance in f64 under the declared metric (harness-side check of the reported score)
 fn expected_score(metric: char, q: &[i32], v: &[i32]) -> f64 {
+    if metric == 'i' {
+        return 1.0 - q.iter().zip(v).map(|(a, b)| (*a as f64) * (*b as f64)).sum::<f64>();
+    }
     if metric == 'l' {
         return q.iter().zip(v).map(|(a, b)| ((a - b) as f64).powi(2)).sum::<f64>().sqrt();
     }
@@ -380,6 +393,7 @@ fn exhaustive(max_len: usize, metric: char, out: &mut Vec<Vec<Op>>) {
                 c.push(Op::Query(5, vec![1, 0]));
             }
             c.push(Op::Query(1, vec![1, 2]));
+            c.push(Op::Query(2, vec![-1, 1]));
             out.push(c);
         }
         if cur.len() == max_len {
@@ -401,7 +415,7 @@ fn rand_vec(rng: &mut Rng, dim: usize) -> Vec<i32> {
 
 fn random_case(rng: &mut Rng) -> Vec<Op> {
     let dim = 2 + rng.usize(3);
-    let metric = if rng.chance(1, 2) { 'c' } else { 'l' };
+    let metric = *rng.pick(&['c', 'l', 'i']);
     let n = 8 + rng.usize(24);
     let index_at = if rng.chance(4, 5) { 0 } else { rng.usize(n / 2) };
     let mut ops = vec![];
@@ -424,7 +438,7 @@ fn random_case(rng: &mut Rng) -> Vec<Op> {
             12 => Op::AddL(h),
             13 => Op::RemL(h),
             14 | 15 => Op::Delete(h),
-            16 => Op::MkIndex(dim, if rng.chance(1, 2) { 'c' } else { 'l' }),
+            16 => Op::MkIndex(dim, *rng.pick(&['c', 'l', 'i'])),
             _ => Op::Query(1 + rng.usize(6), rand_vec(rng, dim)),
         };
         let is_index = matches!(op, Op::MkIndex(..));
@@ -439,10 +453,49 @@ fn random_case(rng: &mut Rng) -> Vec<Op> {
     ops
 }
 
+/// the ranking itself, for every metric the code has: a handful of candidates with
+/// components of either sign (dot products on both sides of 1, cosine similarities on both
+/// sides of 0), zero vectors, larger magnitudes, and k below / at / above the candidate count
+fn ranking_case(rng: &mut Rng) -> Vec<Op> {
+    let dim = 2 + rng.usize(3);
+    let metric = *rng.pick(&['c', 'l', 'i', 'i']);
+    let scale = *rng.pick(&[1, 1, 1, 3, 25]);
+    let n = 2 + rng.usize(11);
+    let mut v = |rng: &mut Rng| -> Vec<i32> {
+        if rng.chance(1, 8) {
+            vec![0; dim]
+        } else {
+            rand_vec(rng, dim).iter().map(|x| x * scale).collect()
+        }
+    };
+    let mut ops = vec![];
+    let at_start = rng.chance(1, 2);
+    if at_start {
+        ops.push(Op::MkIndex(dim, metric));
+    }
+    for _ in 0..n {
+        let x = v(rng);
+        ops.push(Op::Create(true, Some(x)));
+    }
+    if !at_start {
+        ops.push(Op::MkIndex(dim, metric));
+    }
+    for _ in 0..rng.usize(4) {
+        let h = rng.usize(n);
+        let x = v(rng);
+        ops.push(if rng.chance(2, 3) { Op::SetVec(h, VV::Vec(x)) } else { Op::Delete(h) });
+    }
+    for k in [1, n.saturating_sub(1).max(1), n, n + 3] {
+        let q = if rng.chance(1, 10) { vec![0; dim] } else { rand_vec(rng, dim) };
+        ops.push(Op::Query(k, q));
+    }
+    ops
+}
+
 /// more than 128 indexed nodes: the HNSW regime, with updates and deletes, and back below
 fn big_case(rng: &mut Rng) -> Vec<Op> {
     let dim = 3 + rng.usize(2);
-    let metric = if rng.chance(2, 3) { 'l' } else { 'c' };
+    let metric = *rng.pick(&['l', 'l', 'i', 'i', 'c']);
     let mut ops = vec![];
     let at_start = rng.chance(1, 2);
     if at_start {
@@ -482,8 +535,8 @@ fn main() {
     let known = Known::load(&args.known, "C29");
     let mut rep = Report::new(
         "C29",
-        "histories of CREATE VECTOR INDEX / CREATE / SET n.v / REMOVE n.v / SET n:L / REMOVE n:L / DELETE with \
-         CALL db.index.vector.queryNodes interleaved (integer-component vectors, cosine and l2 indexes, sizes on \
+        "histories of CREATE VECTOR INDEX (cosine, l2) or GraphStore::create_vector_index (inner product) / CREATE / SET n.v / REMOVE n.v / SET n:L / REMOVE n:L / DELETE with \
+         CALL db.index.vector.queryNodes interleaved (integer-component vectors of either sign incl. zero vectors, every DistanceMetric variant, sizes on \
          both sides of the 128-entry exact-search bound); non-trivial = a node that was in the index was updated, \
          lost its vector or label, or was deleted before a search; distinct = distinct rendered case",
         &args.replays,
@@ -517,19 +570,25 @@ fn main() {
         let l = if args.thorough() { 4 } else { 3 };
         exhaustive(l, 'c', &mut cases);
         exhaustive(l, 'l', &mut cases);
+        exhaustive(l, 'i', &mut cases);
         rep.exhaustive = true;
         rep.exhaustive_note = format!(
             "all histories of length <= {} (handles addressed only once handed out) over 19 letters (index declaration, 4 creates, \
-             per handle: 2 vector updates, null, REMOVE n.v, SET/REMOVE n:L, DELETE; 2 handles), for a cosine and an l2 index, \
-             with a query after every statement; plus PRNG histories and >128-entry cases (not exhaustive)",
+             per handle: 2 vector updates, null, REMOVE n.v, SET/REMOVE n:L, DELETE; 2 handles), for a cosine, an l2 and an inner-product index, \
+             with a query after every statement; plus PRNG histories, ranking batteries (every metric, k below/at/above the candidate count) \
+             and >128-entry cases (not exhaustive)",
             l
         );
         let mut rng = Rng::new(args.seed).fork();
-        let n_rand = if args.thorough() { 40_000 } else { 1_500 };
+        let n_rand = if args.thorough() { 40_000 } else { 900 };
         for _ in 0..n_rand {
             cases.push(random_case(&mut rng));
         }
-        let n_big = if args.thorough() { 150 } else { 6 };
+        let n_rank = if args.thorough() { 30_000 } else { 900 };
+        for _ in 0..n_rank {
+            cases.push(ranking_case(&mut rng));
+        }
+        let n_big = if args.thorough() { 150 } else { 5 };
         for _ in 0..n_big {
             cases.push(big_case(&mut rng));
         }
@@ -580,6 +639,7 @@ fn main() {
             for op in c {
                 rep.count(match op {
                     Op::MkIndex(_, 'c') => "op:index-cosine",
+                    Op::MkIndex(_, 'i') => "op:index-inner-product",
                     Op::MkIndex(..) => "op:index-l2",
                     Op::Create(..) => "op:create",
                     Op::SetVec(_, VV::Vec(_)) => "op:set-vector",
@@ -662,6 +722,8 @@ fn main() {
                             "live" if set.len() < ids.len() => "vector-update-duplicate".to_string(),
                             "live" | "no-index" => "vector-delete-stale".to_string(),
                             "rank" if matches!(metric_at[j].0, Some((_, 'l'))) => "vector-l2-as-cosine".to_string(),
+                            "rank" if matches!(metric_at[j].0, Some((_, 'i'))) => "vector-rank-inner-product".to_string(),
+                            "rank" => "vector-rank-cosine".to_string(),
                             other => format!("vector-{}", other),
                         }
                     }
@@ -688,7 +750,8 @@ fn main() {
                 if let (Some((_, mm)), q) = &metric_at[j] {
                     for (h, sc) in &o.rows {
                         if let Some(v) = o.nodes.iter().find(|n| Some(n.h) == *h).and_then(|n| n.vec.as_ref()) {
-                            if (expected_score(*mm, q, v) - sc).abs() > 1e-4 {
+                            let want = expected_score(*mm, q, v);
+                            if (want - sc).abs() > 1e-4 * want.abs().max(1.0) {
                                 bad_score = Some((j, h.unwrap_or(0), *sc));
                             }
                         }
